@@ -27,7 +27,7 @@ SHARDS = {"quick": 8, "thorough": 16}
 DEADLINE = {"quick": 50, "thorough": 420}
 REQUIRED = {"eval:int:expression": 500, "eval:float:expression": 500, "eval:missing-variable": 50, "eval:division-by-zero": 20,
             "eval:equation:true": 20, "eval:equation:false": 20, "evalop:int:Power": 100, "evalop:int:Factorial": 20, "evalop:float:Divide": 100,
-            "evalop:int:Sgn": 10, "evalop:float:Power": 50, "eval:int:bigresult": 20}
+            "evalop:int:Sgn": 10, "evalop:float:Power": 50, "eval:int:bigresult": 20, "eval:same-dict-updated-in-place": 500}
 
 INT_VALUES = [0, 1, -1, 2, 3, -2, 5, 7, 10, -7, 12, 2 ** 31, 2 ** 32, 2 ** 63 - 1, 2 ** 63, -(2 ** 63) - 1, 10 ** 30, 2 ** 64 + 1, 99991, -65537, 46341, 3037000500]
 FLOAT_VALUES = [0.5, 2.5, -0.25, 1.5, 0.1, 3.14, 100.125, 1e-3, 12.75, -7.5, 1e6, 2.0, 0.0, 1e10]
@@ -194,6 +194,21 @@ def run(rec, cfg):
             for mode in rng.sample(["int", "small-int", "float", "mixed", "small-int"], 3):
                 ctx = context_for(rng, names, mode)
                 v = evaluate(rec, t, ctx)
+            if names and rng.random() < 0.3:
+                # the caller keeps ONE dict and updates it in place between evaluations of the same
+                # tree (a loop over x values, a variable removed again): every call is decided
+                # against the dict's contents at that call
+                shared = context_for(rng, names, "small-int")
+                evaluate(rec, t, shared)
+                for _ in range(3):
+                    shared[rng.choice(names)] = rng.choice(INT_VALUES[:12] + FLOAT_VALUES[:4])
+                    evaluate(rec, t, shared)
+                    rec.arm("eval:same-dict-updated-in-place")
+                gone = rng.choice(names)
+                del shared[gone]
+                evaluate(rec, t, shared)
+                shared[gone] = 3
+                evaluate(rec, t, shared)
             if names and rng.random() < 0.15:
                 ctx = context_for(rng, names, "small-int")
                 drop = rng.choice(names)
